@@ -14,7 +14,7 @@ import xml.etree.ElementTree as ET
 from fractions import Fraction
 from functools import lru_cache
 
-RATES_DIR = "/repo/crates/cgt-money/resources/rates"
+RATES_DIR = (os.environ.get("VERIF_SCRATCH_REPO") or "/repo") + "/crates/cgt-money/resources/rates"
 MONTHS = {m: i + 1 for i, m in enumerate(
     ["Jan", "Feb", "Mar", "Apr", "May", "Jun", "Jul", "Aug", "Sep", "Oct", "Nov", "Dec"])}
 
